@@ -90,7 +90,8 @@ def check_pure(s, res):
                 out.append({'clause': 'derived identifier is legal for the level', 'cls': '%s L%d %s' % (kind, level, why),
                             'msg': '%r level %d %s -> %r is not legal' % (s, level, kind, ident)})
             elif legal_input(s, 1, is_dir) and ident not in ((s,) if is_dir else (s + ';1', s)):
-                out.append({'clause': 'an already legal name is returned unchanged (apart from the version)', 'cls': '%s L%d' % (kind, level),
+                out.append({'clause': 'an already legal name is returned unchanged (apart from the version)',
+                            'cls': '%s L%d %s' % (kind, level, 'trailing dot (empty extension)' if s.endswith('.') and s.count('.') == 1 else 'other'),
                             'msg': '%r level %d %s -> %r' % (s, level, kind, ident)})
             res.add('results', hash((ident, level, is_dir)) & 0xfffff)
     return out
@@ -192,7 +193,7 @@ def collision_sets():
             yield list(c)
 
 
-BOUNDS = {'quick': (3, 2), 'thorough': (4, 3)}      # (pure string length, acceptance string length)
+BOUNDS = {'quick': (4, 3), 'thorough': (5, 4)}      # (pure string length, acceptance string length)
 
 
 def tasks(tier):
